@@ -1,29 +1,81 @@
 import Driver.Common
 import Sourmash.Model.Md5Cache
+import Sourmash.Model.Murmur
+import Sourmash.Spec.Kmers
 /-! C13 driver.  model column: what the sketch model (with its md5 cache field) answers;
-spec column: for `md5`/`cmd5`/`clone`/`copy` the MD5 of the preimage of the sketch's CURRENT hashes,
-for `eq` "equal exactly when ksize and hashes agree".  A stale cache in the real code therefore shows
-as an oracle failure. -/
-open Driver Md5Cache
+spec column: for `md5`/`cmd5`/`clone`/`copy` the MD5 of the preimage of the sketch's CURRENT hashes
+(the hashes every mutator answered with are compared line by line with the real sketch's, so this is
+the digest of what the real sketch holds), for `eq`/`req` "equal exactly when ksize and hashes
+agree".  A stale cache in the real code therefore shows as an oracle failure.
 
-inductive Pair
-  | v (p : VPair)
-  | t (p : TPair)
+The hashes a sequence contributes (`seq`, `prot`, `word` and their C API forms) are computed here
+from the documented k-mer specification `Spec/Kmers.lean` + `Model/Murmur.lean` (no generated
+tables); the machine op `addSeq` then only sees "these hashes in order, then possibly a failure". -/
+open Driver Md5Cache
 
 structure DSt where
   ok : Bool := Md5.selfTest          -- RFC 1321 vectors, evaluated at start-up
+  mol : Kmers.Mol := .dna
   p : Pair := .v ⟨MH.Vec.new 0 0 false, MH.Vec.new 0 0 false⟩
 
-def kvGet (ws : List String) (key : String) : Nat :=
+def kvStr (ws : List String) (key : String) : Option String :=
   match ws.filterMap (fun w => match w.splitOn "=" with
-      | [k, v] => if k == key then v.toNat? else none
+      | [k, v] => if k == key then some v else none
       | _ => none) with
-  | n :: _ => n
-  | [] => 0
+  | v :: _ => some v
+  | [] => none
 
-def parseOp (op : String) (args : List String) : Option Op :=
+def kvGet (ws : List String) (key : String) : Nat := ((kvStr ws key).bind String.toNat?).getD 0
+
+def molOf (s : String) : Kmers.Mol :=
+  if s == "protein" then .protein else if s == "dayhoff" then .dayhoff else if s == "hp" then .hp else .dna
+
+def seqBytes (s : String) : List UInt8 := if s == "-" then [] else s.toUTF8.toList
+
+def natsOf (l : List UInt64) : List Nat := (l.map UInt64.toNat).filter (· != 0)
+
+/-- `add_sequence(seq, force)` on a sketch of molecule type `m`: hashes added in order, and the error
+    the call ends with (the value 0 is the implementation's "nothing" marker and is never added) -/
+def seqHashes (m : Kmers.Mol) (k : Nat) (force : Bool) (seq : List UInt8) : List Nat × Option String :=
+  match m with
+  | .dna =>
+    let ev := Kmers.dnaStream k 42 force seq
+    (natsOf (Kmers.evHashes ev), if Kmers.evOk ev then none else some "InvalidDNA")
+  | _ => (natsOf (Kmers.translateHashes m k 42 seq), none)
+
+/-- `add_protein(seq)`: a DNA sketch refuses (as soon as there is one window) -/
+def protHashes (m : Kmers.Mol) (k : Nat) (seq : List UInt8) : List Nat × Option String :=
+  match m with
+  | .dna => ([], if seq.length ≥ k / 3 then some "InvalidHashFunction" else none)
+  | _ => (natsOf (Kmers.proteinHashes m k 42 seq), none)
+
+def pairsOf (hs as : String) : List (Nat × Nat) := (natList hs).zip (natList as)
+
+/-- ksize of the sketch an op acts on -/
+def Md5Cache.Pair.ksizeOf (p : Pair) (onOther : Bool) : Nat :=
+  match p with
+  | .v q => if onOther then q.other.ksize else q.main.ksize
+  | .t q => if onOther then q.other.ksize else q.main.ksize
+
+def isTree : Pair → Bool
+  | .t _ => true
+  | .v _ => false
+
+/-- entry points of the C API (`ffi/minhash.rs`): each delegates to the method of the same name
+    (`kmerminhash_add_many` runs its own `add_hash` loop); they exist for the vector type only -/
+def cName (op : String) : Option String :=
+  match op with
+  | "cmd5" => some "md5" | "cadd" => some "add1" | "cadda" => some "add" | "caddmany" => some "addmany"
+  | "cword" => some "word" | "cseq" => some "seq" | "cprot" => some "prot" | "crm" => some "rm"
+  | "crmmany" => some "rmmany" | "cclear" => some "clear" | "cmerge" => some "merge"
+  | "caddfrom" => some "addfrom" | "crmfrom" => some "rmfrom" | "csetab" => some "setab"
+  | "cenable" => some "enable" | "cdisable" => some "disable"
+  | _ => none
+
+def parseOp (mol : Kmers.Mol) (k : Nat) (op : String) (args : List String) : Option Op :=
   match op, args with
   | "add", [h, a] => some (.add h.toNat! a.toNat!)
+  | "add1", [h] => some (.add h.toNat! 1)
   | "set", [h, a] => some (.set h.toNat! a.toNat!)
   | "rm", [h] => some (.remove h.toNat!)
   | "rmmany", [hs] => some (.removeMany (natList hs))
@@ -33,9 +85,23 @@ def parseOp (op : String) (args : List String) : Option Op :=
   | "disable", [] => some .disable
   | "inflate", [] => some .inflate
   | "md5", [] => some .md5
-  | "cmd5", [] => some .md5
+  | "jmd5", [] => some .md5        -- `Serialize` writes `self.md5sum()`
   | "clone", [] => some .clone
   | "copy", [] => some .copy
+  | "addmany", [hs] => some (.addMany (natList hs))
+  | "addmanya", [hs, as] => some (.addManyAbund (pairsOf hs as))
+  | "addfrom", [] => some .addFrom
+  | "rmfrom", [] => some .removeFrom
+  | "word", [w] => some (.addSeq [(Murmur.hash64 (unhex w) 42).toNat] none)
+  | "sigseq", [s, f] => let r := seqHashes mol k (f == "1") (seqBytes s); some (.addSeq r.1 r.2)
+  | "sigprot", [s] => let r := protHashes mol k (seqBytes s); some (.addSeq r.1 r.2)
+  | "seq", [s, f] => let r := seqHashes mol k (f == "1") (seqBytes s); some (.addSeq r.1 r.2)
+  | "prot", [s] => let r := protHashes mol k (seqBytes s); some (.addSeq r.1 r.2)
+  | "setab", [hs, as, c] => some (.setAbundances (pairsOf hs as) (c == "1"))
+  | "down", [sc] => some (.downScaled sc.toNat!)
+  | "downmh", [mh] => some (.downMaxHash mh.toNat!)
+  | "downmv", [sc] => some (.downMove sc.toNat!)
+  | "serde", [] => some .serde
   | _, _ => none
 
 def showOut : Out → String
@@ -44,9 +110,11 @@ def showOut : Out → String
   | .digest d => Md5.hex d
   | .bool b => if b then "true" else "false"
   | .badOp => "bad-op"
+  | .errMins e l => "err " ++ e ++ " mins=" ++ showNats l
+  | .mins2 a b => "mins=" ++ showNats a ++ " omins=" ++ showNats b
 
 /-- (ksize, hashes) of the sketch an observer op reports on, after the op -/
-def Pair.subject (p : Pair) (onOther : Bool) (op : Op) : Nat × List Nat :=
+def Md5Cache.Pair.subject (p : Pair) (onOther : Bool) (op : Op) : Nat × List Nat :=
   -- `copy` reports the md5 of the copy, which sits in the other slot
   let other := match op with
     | .copy => !onOther
@@ -55,35 +123,49 @@ def Pair.subject (p : Pair) (onOther : Bool) (op : Op) : Nat × List Nat :=
   | .v q => let s := if other then q.other else q.main; (s.ksize, s.mins)
   | .t q => let s := if other then q.other else q.main; (s.ksize, s.mins)
 
-def Pair.step (p : Pair) (c : Cmd) : Pair × Out :=
-  match p with
-  | .v q => let r := q.step c; (.v r.1, r.2)
-  | .t q => let r := q.step c; (.t r.1, r.2)
+def eqSpec (p : Pair) : String :=
+  let (k1, m1) := p.subject false .md5
+  let (k2, m2) := p.subject true .md5
+  if k1 == k2 && m1 == m2 then "true" else "false"
 
 def stepC13 (s : DSt) (ws : List String) : DSt × Resp :=
   if !s.ok then (s, { model := "MD5-SELFTEST-FAILED" }) else
   match ws with
   | "case" :: _ :: ty :: rest =>
     let num := kvGet rest "num"; let mh := kvGet rest "mh"; let k := kvGet rest "k"
+    let ko := match kvStr rest "ok" with
+      | some v => v.toNat!
+      | none => k
     let track := kvGet rest "track" == 1; let otrack := kvGet rest "otrack" == 1
-    let p : Pair := if ty == "tree" then .t ⟨MH.Tree.new num mh track k, MH.Tree.new num mh otrack k⟩
-      else .v ⟨MH.Vec.new num mh track k, MH.Vec.new num mh otrack k⟩
-    ({ s with p := p }, { model := "ok" })
+    let p : Pair := if ty == "tree" then .t ⟨MH.Tree.new num mh track k, MH.Tree.new num mh otrack ko⟩
+      else .v ⟨MH.Vec.new num mh track k, MH.Vec.new num mh otrack ko⟩
+    ({ s with p := p, mol := molOf ((kvStr rest "mol").getD "dna") }, { model := "ok" })
   | ["eq"] =>
-    let (p', out) := s.p.step .eq
-    let (k1, m1) := p'.subject false .md5
-    let (k2, m2) := p'.subject true .md5
-    ({ s with p := p' }, { model := showOut out, spec := if k1 == k2 && m1 == m2 then "true" else "false" })
+    let (p', out) := s.p.step (.cmd .eq)
+    ({ s with p := p' }, { model := showOut out, spec := eqSpec p' })
+  | ["req"] =>
+    let (p', out) := s.p.step (.cmd .eqRev)
+    ({ s with p := p' }, { model := showOut out, spec := eqSpec p' })
+  | ["conv"] =>
+    let (p', out) := s.p.step .conv
+    ({ s with p := p' }, { model := showOut out })
+  | ["convr"] =>
+    -- `From<&KmerMinHashBTree> for KmerMinHash` exists in this direction only
+    if !isTree s.p then (s, { model := "bad-op" }) else
+    let (p', out) := s.p.step .conv
+    ({ s with p := p' }, { model := showOut out })
   | w :: args =>
     let (onOther, opName) := match w.splitOn "." with
       | ["o", op] => (true, op)
       | _ => (false, w)
-    match parseOp opName args with
+    -- the C API entry points exist for the vector type only
+    let resolved : Option String := match cName opName with
+      | some n => if isTree s.p then none else some n
+      | none => if opName == "add1" || opName == "setab" then none else some opName
+    match resolved.bind (fun n => parseOp s.mol (s.p.ksizeOf onOther) n args) with
     | none => (s, { model := "bad-op" })
     | some op =>
-      -- the C API entry point exists for the vector type only
-      if opName == "cmd5" && (match s.p with | .t _ => true | .v _ => false) then (s, { model := "bad-op" }) else
-      let (p', out) := s.p.step (.on onOther op)
+      let (p', out) := s.p.step (.cmd (.on onOther op))
       let spec := match out with
         | .digest _ => let (k, m) := p'.subject onOther op; Md5.hex (Md5.digest k m)
         | _ => "-"
